@@ -183,6 +183,41 @@ func vC53Clone(r *rand.Rand, nodes []vBNode, names []string) ([]vBNode, string) 
 	return nodes, ""
 }
 
+// vC53NewContent changes a content key.  Files (key = list of chunk keys joined by "+", one blob per chunk): a chunk
+// appended / the last chunk dropped on a blob boundary (also from / to the empty file), one chunk replaced by another
+// one of the same or of a different size.  Symlinks: another target of the same or of a different length.
+func vC53NewContent(r *rand.Rand, key string, file bool, serial int) string {
+	sameLen := func(k string) string {
+		last := byte('x')
+		if k[len(k)-1] == 'x' {
+			last = 'y'
+		}
+		return k[:len(k)-1] + string(last)
+	}
+	if !file {
+		if r.Intn(2) == 0 && key != "" {
+			return sameLen(key)
+		}
+		return key + "'"
+	}
+	chunks := vC53Chunks(key)
+	x := r.Intn(5)
+	switch {
+	case x == 0 || len(chunks) == 0:
+		chunks = append(chunks, fmt.Sprintf("app%d", serial))
+	case x == 1:
+		chunks = chunks[:len(chunks)-1]
+	case x == 2:
+		i := r.Intn(len(chunks))
+		chunks[i] = sameLen(chunks[i])
+	case x == 3:
+		chunks[len(chunks)-1] += "'"
+	default:
+		chunks[r.Intn(len(chunks))] = fmt.Sprintf("repl%d", serial)
+	}
+	return strings.Join(chunks, "+")
+}
+
 // vC53Edit applies one random edit and returns the new node list and the kind of edit ("" if not applicable).
 func vC53Edit(r *rand.Rand, nodes []vBNode, names []string, serial int) ([]vBNode, string) {
 	have := map[string]bool{}
@@ -211,7 +246,11 @@ func vC53Edit(r *rand.Rand, nodes []vBNode, names []string, serial int) ([]vBNod
 		for i := 0; i < k; i++ {
 			cp := p + "/" + names[perm[i]]
 			fresh := func() {
-				res = append(res, vBNode{Path: cp, Type: []string{"file", "file", "symlink"}[r.Intn(3)], Key: fmt.Sprintf("new%d-%d", serial, i)})
+				n := vBNode{Path: cp, Type: []string{"file", "file", "symlink"}[r.Intn(3)], Key: fmt.Sprintf("new%d-%d", serial, i)}
+				if n.Type == "file" {
+					n.Key = []string{"", n.Key, n.Key, n.Key + "+common", n.Key + "+" + n.Key + "~2"}[r.Intn(5)]
+				}
+				res = append(res, n)
 			}
 			clone := func(from []vBNode, src string) bool {
 				if src == "" || depth(p)+vC53Height(from, src) > vC53MaxDepth {
@@ -246,7 +285,7 @@ func vC53Edit(r *rand.Rand, nodes []vBNode, names []string, serial int) ([]vBNod
 		return res
 	}
 	out := append([]vBNode{}, nodes...)
-	switch kind := []string{"add", "remove", "type", "content", "meta", "add", "remove", "type", "clone", "add"}[r.Intn(10)]; kind {
+	switch kind := []string{"add", "remove", "type", "content", "meta", "add", "remove", "type", "clone", "add", "content"}[r.Intn(11)]; kind {
 	case "clone":
 		return vC53Clone(r, nodes, names)
 	case "add":
@@ -309,16 +348,7 @@ func vC53Edit(r *rand.Rand, nodes []vBNode, names []string, serial int) ([]vBNod
 		if !ok {
 			return nodes, ""
 		}
-		if k := out[i].Key; r.Intn(2) == 0 && len(k) > 0 {
-			// same length (hence same file size), different bytes
-			last := byte('x')
-			if k[len(k)-1] == 'x' {
-				last = 'y'
-			}
-			out[i].Key = k[:len(k)-1] + string(last)
-		} else {
-			out[i].Key += "'"
-		}
+		out[i].Key = vC53NewContent(r, out[i].Key, nodes[i].Type == "file", serial)
 		if r.Intn(3) == 0 {
 			out[i].Meta++ // usually content and metadata change together
 		}
@@ -411,6 +441,25 @@ func vC53CheckBlobs(t testing.TB, e *vEnv, res *kit.Result, snap string, nodes [
 	if len(stored) != len(nodes) {
 		res.Problem("snapshot %s has %d entries, built from %d", snap[:8], len(stored), len(nodes))
 	}
+	byKey, byContent := map[string]string{}, map[string]string{}
+	for _, n := range nodes {
+		if n.Type != "file" {
+			continue
+		}
+		c := stored["/"+n.Path].Content
+		if prev, ok := byKey[n.Key]; ok && prev != c {
+			res.Problem("files with the same content key (/%s) have different blob lists", n.Path)
+		} else if ok {
+			res.Count("file_content_shared_by_two_paths", 1)
+		}
+		if prev, ok := byContent[c]; ok && prev != n.Key {
+			res.Problem("files with different content keys (/%s) have the same blob list", n.Path)
+		}
+		if strings.Count(c, " ")+1 != len(vC53Chunks(n.Key)) && !(n.Key == "" && strings.HasPrefix(c, "[]")) {
+			res.Problem("file /%s (key %q) has blob list %s", n.Path, n.Key, c)
+		}
+		byKey[n.Key], byContent[c] = c, n.Key
+	}
 	bySig, byID := map[string]string{}, map[string]string{}
 	for p, sig := range vC53TreeSigs(nodes) {
 		id := stored["/"+p].Subtree
@@ -462,14 +511,14 @@ func vC53Parse(out string) ([]vC53Line, int, error) {
 }
 
 func TestVerif_C53(t *testing.T) {
-	res := kit.NewResult("one case = one real `restic diff A B` (JSON output, with and without --metadata, in both directions) of two hand-built snapshots: A a generated tree (depth <= 3 over names {a, a.b, a-b, ab, b, B}: files, symlinks, empty and nested directories), plus 0-3 identical copies of existing subtrees/files at other places (same tree / content blobs), B derived from A by 0-3 edits (add incl. new directories whose children are fresh entries, identical copies of existing subtrees/files or twins of each other; identical copy of an existing subtree/file next to it or elsewhere; remove; type change incl. directory<->file; content change with and without size change; metadata-only change), untouched subtrees staying identical; distinct by (A, B, direction, --metadata); non-trivial when the snapshots differ")
+	res := kit.NewResult("one case = one real `restic diff A B` (JSON output, with and without --metadata, in both directions) of two hand-built snapshots: A a generated tree (depth <= 3 over names {a, a.b, a-b, ab, b, B}: files, symlinks, empty and nested directories), plus 0-3 identical copies of existing subtrees/files at other places (same tree / content blobs), B derived from A by 0-3 edits (add incl. new directories whose children are fresh entries, identical copies of existing subtrees/files or twins of each other; identical copy of an existing subtree/file next to it or elsewhere; remove; type change incl. directory<->file; content change: files consist of 0-3 blobs, a blob appended / the last blob dropped on a blob boundary (also from / to the empty file), one blob replaced with and without size change, symlink target changed; metadata-only change), untouched subtrees staying identical; distinct by (A, B, direction, --metadata); non-trivial when the snapshots differ")
 	recs := kit.NewNDJSON("recs.ndjson")
 	defer recs.Close()
 	rnd := kit.Rand(53)
 	names := []string{"a", "a.b", "a-b", "ab", "b", "B"}
 	nBase := kit.Pick(14, 110)
 	perBase := kit.Pick(14, 22)
-	serial, shared, maxEntries := 0, 0, 0
+	serial, shared, extended, maxEntries := 0, 0, 0, 0
 	for bi := 0; bi < nBase; bi++ {
 		e := newVEnv(t, nil)
 		if err := e.init("2"); err != nil {
@@ -481,7 +530,21 @@ func TestVerif_C53(t *testing.T) {
 		}
 		var A []vBNode
 		for _, en := range entries {
-			A = append(A, vBNode{Path: en.Path, Type: en.Type, Key: en.Path})
+			key := en.Path
+			if en.Type == "file" {
+				// files of 0-3 blobs; "common" is a blob that several files contain
+				switch rnd.Intn(8) {
+				case 0:
+					key = ""
+				case 1:
+					key += "+" + en.Path + "~2"
+				case 2:
+					key += "+common+" + en.Path + "~3"
+				case 3:
+					key = "common+" + key
+				}
+			}
+			A = append(A, vBNode{Path: en.Path, Type: en.Type, Key: key})
 		}
 		// identical copies of subtrees / files at other places of the base tree (same tree blobs, same content blobs)
 		for c, nc := 0, []int{0, 1, 1, 2, 3}[rnd.Intn(5)]; c < nc; c++ {
@@ -491,7 +554,7 @@ func TestVerif_C53(t *testing.T) {
 			}
 		}
 		sort.Slice(A, func(i, j int) bool { return A[i].Path < A[j].Path })
-		idA := vBuildSnapshot(t, e, A, vBTime)
+		idA := vC53BuildSnapshot(t, e, A, vBTime)
 		vC53CheckBlobs(t, e, res, idA, A)
 		for k := 0; k < perBase; k++ {
 			B := append([]vBNode{}, A...)
@@ -511,7 +574,7 @@ func TestVerif_C53(t *testing.T) {
 				}
 			}
 			sort.Slice(B, func(i, j int) bool { return B[i].Path < B[j].Path })
-			idB := vBuildSnapshot(t, e, B, vBTime.Add(time.Duration(k+1)*time.Minute))
+			idB := vC53BuildSnapshot(t, e, B, vBTime.Add(time.Duration(k+1)*time.Minute))
 			vC53CheckBlobs(t, e, res, idB, B)
 			for dir := 0; dir < 2; dir++ {
 				meta := (k+dir)%2 == 0
@@ -544,6 +607,21 @@ func TestVerif_C53(t *testing.T) {
 					res.Count("shared_tree_below_removed", 1)
 					shared++
 				}
+				xk := map[string]vBNode{}
+				for _, n := range x {
+					xk[n.Path] = n
+				}
+				for _, n := range y {
+					if o, ok := xk[n.Path]; ok && o.Type == "file" && n.Type == "file" {
+						if vC53IsPrefix(o.Key, n.Key) {
+							res.Count("file_blob_list_extended", 1)
+							extended++
+						}
+						if vC53IsPrefix(n.Key, o.Key) {
+							res.Count("file_blob_list_truncated", 1)
+						}
+					}
+				}
 				if len(x)+len(y) > maxEntries {
 					maxEntries = len(x) + len(y)
 				}
@@ -559,6 +637,9 @@ func TestVerif_C53(t *testing.T) {
 	res.Count("max_entries_of_a_pair", maxEntries)
 	if shared == 0 {
 		res.Problem("no pair with a non-empty directory below an added/removed directory that shares its tree blob with another directory")
+	}
+	if extended == 0 {
+		res.Problem("no pair with a file whose blob list was extended on a blob boundary")
 	}
 	res.Save("")
 }
